@@ -412,7 +412,18 @@ impl Ctx {
         self.log
             .emit("Call", json!({"c": c, "t": t, "op": "open", "h": h, "k": 0}));
         self.dog.enter(c, t, "open", format!("open handle {}", h));
-        let r = DB::open(self.options());
+        let opts = self.options();
+        let r = match std::panic::catch_unwind(std::panic::AssertUnwindSafe(|| DB::open(opts))) {
+            Ok(r) => r,
+            Err(_) => {
+                // a panic of the code under test is data, not a crash of the driver
+                self.dog.leave(c);
+                self.log
+                    .emit("Panic", json!({"c": c, "t": t, "op": "open", "h": h}));
+                self.ret(c, t, "open", h, false, "panic in DB::open", None);
+                return None;
+            }
+        };
         self.dog.leave(c);
         match r {
             Ok(db) => {
@@ -430,7 +441,10 @@ impl Ctx {
         self.log
             .emit("Call", json!({"c": c, "t": t, "op": "close", "h": h, "k": 0}));
         self.dog.enter(c, t, "close", format!("drop handle {}", h));
-        drop(db);
+        if std::panic::catch_unwind(std::panic::AssertUnwindSafe(|| drop(db))).is_err() {
+            self.log
+                .emit("Panic", json!({"c": c, "t": t, "op": "close", "h": h}));
+        }
         self.dog.leave(c);
         self.ret(c, t, "close", h, true, "", None);
     }
@@ -439,7 +453,19 @@ impl Ctx {
         self.log
             .emit("Call", json!({"c": c, "t": t, "op": "destroy", "h": 0, "k": 0}));
         self.dog.enter(c, t, "destroy", "destroy_database".to_string());
-        let r = DB::destroy_database(self.options());
+        let opts = self.options();
+        let r = match std::panic::catch_unwind(std::panic::AssertUnwindSafe(|| {
+            DB::destroy_database(opts)
+        })) {
+            Ok(r) => r,
+            Err(_) => {
+                self.dog.leave(c);
+                self.log
+                    .emit("Panic", json!({"c": c, "t": t, "op": "destroy", "h": 0}));
+                self.ret(c, t, "destroy", 0, false, "panic in destroy_database", None);
+                return false;
+            }
+        };
         self.dog.leave(c);
         match r {
             Ok(()) => {
